@@ -52,4 +52,19 @@ var props = map[string]propCfg{
 		Stub:           []string{"token hardware (scripted \"sim\" token registered through token.Openers)", "wall clock (testing/synctest virtual clock)", "HTTP connection handling (handler called directly)"},
 		RequiredProbes: []string{"stale-503", "healthy-200", "disabled-503", "failed-rounds-503", "recovery-after-failure", "close-during-round", "close-before-first-round-ends", "ping-hang-until-timeout", "ping-error", "ping-slow"},
 	},
+	"C15": {
+		Level:    "exploration",
+		Quick:    tierCfg{Workers: 16, RunsPerWorker: 120, BudgetS: 40, MinimiseS: 10, CanaryEvery: 25},
+		Thorough: tierCfg{Workers: 16, RunsPerWorker: 20000, BudgetS: 600, MinimiseS: 60, CanaryEvery: 50},
+		Rule: "A run = 1-3 scheduled client tasks issuing 2-6 operations each (Ping, GetKey, SignContext with/without PSS) through the real worker client (retry loop) over a scripted RPC transport into the real worker handler on the real key cache (+ optional rate limiter) over a scripted token; every attempt's outcome is drawn from the tape (success, HTTP 500/502/503/504/400/403/404/501, connection refused, reset mid-response, stall until the per-attempt timeout, malformed/empty reply, back-end retryable / key-usage / not-implemented / fatal-session / user PKCS#11 error / hang / generic error), callers cancel or time out at arbitrary virtual instants, back-end keys may rotate, retries in {default,1,2,3,7}, timeout in {default,3,10} s, cache lifetime in {1,5,600} s; afterwards faults stop and a final operation per key must succeed at once. evaluations = operations + cookie probes; a signature is (operation, sequence of attempt classes, context mode, cancelled?, result) and distinct_nontrivial counts distinct signatures.",
+		Assumptions: []string{
+			"outcomes the statement does not classify (malformed JSON, empty 200, 501, generic back-end error) may be retried or not: only the attempt limit and 'an error is reported' are asserted for them",
+			"documented defaults (5 attempts, 60 s per attempt) are taken from the configuration documentation when the configuration leaves them unset",
+			"a transient failure with attempts left and a live caller must be followed by a retry; back-off gaps must be positive and non-decreasing (no constants mirrored)",
+			"a cancelled caller must get its answer within 1 s of virtual time",
+		},
+		Real:           append([]string{"token/worker request/doRetry/doOnce/workerKey, cmdline/workercmd handler (cookie check, error classification), internal/workerrpc, internal/httperror, token/tokencache Cache + RateLimited, token.KeyID pinning, net/http.Client"}, commonReal...),
+		Stub:           []string{"worker process management (fork/exec, socket activation): the WorkerToken is built by a white-box constructor", "TCP between server and worker: scripted RoundTripper dispatching into the real handler", "token hardware: scripted sim token with key generations"},
+		RequiredProbes: []string{"rpc-http503", "rpc-refused", "rpc-reseteof", "rpc-stall", "rpc-http403", "rpc-malformed", "backend-usage", "backend-retryable", "backend-pkcs11-fatal", "backend-pkcs11-user", "backend-hang", "cancelled-cancel", "cancelled-deadline", "final-op", "rotated-key-seen", "pinned-old-id-after-rotation", "rpc-bad-cookie", "worker-shutdown-requested"},
+	},
 }
